@@ -160,6 +160,11 @@ def simOp (st : SimSt) (ws : List String) : SimSt × List String :=
       | .ok (some ms, s') => simObs st s!"Ok{showMsgs ms}" s'
       | .ok (none, s') => simObs st "Err" s'
       | .error _ => fail st
+  | ["roundtrip", p] =>
+    -- saving a process's state and restoring that very state changes nothing
+    match amGet? (name! p) s.procNodes with
+    | none => fail st
+    | some _ => simObs st "ok" s
   | ["read", p] => match s.readLocal (name! p) with
     | .ok (ms, s') => simObs st (showMsgs ms) s'
     | .error _ => fail st
